@@ -705,6 +705,12 @@ def run(chk, prog, cid, dunits=None, cfgname='tested', what='s=d, c=z exact'):
                             'SIBLING-DIVERGENCE %s (%s:%d) vs %s (%s:%d): %s: `%s` vs `%s`'
                             % (f.name, u.rel, d['a_line'], g.name, sib.rel, d['b_line'], d['why'], d['a'][:120], d['b'][:120]),
                             d, cfgname=cfgname)
+    # real ~ complex: the integer skeletons of the d and z instantiations agree (rules/r9c_skeleton.py)
+    from . import r9c_skeleton
+    all_d = {os.path.basename(u.rel) for u in prog.units if u.rel.startswith('SRC/') and os.path.basename(u.rel).startswith(('d', 'ilu_d', 'sp_d'))}
+    want = all_d if dunits is None else {b for b in all_d if b in dunits}
+    if want:
+        r9c_skeleton.run(chk, cid + '.rc', prog, want, cfgname)
     return n
 
 
